@@ -99,3 +99,10 @@ Qed.
 (* -0 (0x8000...0) is immediately below +0 (0) *)
 Lemma f2i_zeros : f2i two63 = -1 /\ f2i 0 = 0.
 Proof. split; reflexivity. Qed.
+
+(* the query-time precision step (the literal argument of splitInt64Range in
+   NewNumericRangeSearcher) equals the index-time steps of numeric and datetime fields;
+   all three are regenerated from the Go source on every run *)
+Lemma steps_agree :
+  query_precision_step = numeric_precision_step /\ query_precision_step = datetime_precision_step.
+Proof. split; reflexivity. Qed.
